@@ -60,7 +60,8 @@ def check(run: Run, prog: Program, model: Model, tier: str) -> None:
         "required; an absent key keeps its entry; the relaxed marker survives. List: the element list is built from "
         "a loop over all of the value or by _substitute_elements, whose window / suffix / prefix index ranges "
         "partition range(len(value)). any: never empty. The generator returns props.value whenever it is set and the "
-        "validator compares with it. That the chosen window is the right one on concrete values is not decided.")
+        "validator compares with it. That the chosen window is the right one on concrete values is not decided."
+        " Two members deep, the member pinned at position j derives from value[j] (no equality-keyed memo); an exact element list generates one member per element under every length prop-set; the conversion used for free-form positions is not memoised by equality.")
     run.rule_text = "obligations per (visit method, prop-set/shape) and clause; non-trivial = result tables computed on interpreter paths"
     # ---------------------------------------------------------------- PIN
     for hook in SCALARS:
